@@ -5,11 +5,13 @@ import CaresLemmas.BufOps
 import CaresLemmas.BufSplit
 import CaresLemmas.BufPatch
 import CaresLemmas.SListFind
+import CaresLemmas.LListInv
 /-!
 # C19 — internal containers behave as their abstract data types
 
 Property theorems only (helper lemmas live in `CaresLemmas`).  Part 1: `ares_array`; part 2: `ares_htable`
-(and its typed wrappers); part 3: `ares_buf`; part 4: `ares_slist`.
+(and its typed wrappers); part 3: `ares_buf`; part 4: `ares_slist`;
+part 5: `ares_llist`.
 
 The array model (`Cares.Dsa.Arr`) follows `ares_array.c` field by field (`mem/cnt/off`, the bounds
 checks of `ares_array_move`, the growth policy).  The theorems say: for every reachable array the
@@ -826,5 +828,225 @@ example :
   decide +kernel
 
 end SList
+
+/-! ## Part 5 — `ares_llist`
+
+The model (`Cares.Dsa.LHeap`) is at pointer level: nodes with `prev` / `next` / `parent`, list headers with
+`head` / `tail` / `cnt`, and every API function as the pointer updates of the C function.  `GInv h abs` says that
+the heap `h` stands for the family of sequences `abs` (list id ↦ node ids in order): every header and every
+node's three pointers are exactly those of a doubly linked list of that sequence, and no node is in two lists.
+Each theorem below says: the C pointer surgery turns a heap for `abs` into a heap for the list-level result.
+-/
+section LList
+open Cares.Dsa.LHeap
+
+/-- no lists, no nodes -/
+theorem ll_empty : GInv LHeap.empty (fun _ => none) :=
+  ⟨fun _ => ⟨fun _ => rfl, fun _ => rfl⟩, fun L l h => (by cases h), fun x nd L h => (by cases h)⟩
+
+/-- `ares_llist_create` -/
+theorem ll_create (h : LHeap) (abs : Nat → Option (List Nat)) (L : Nat) (g : GInv h abs) (hL : abs L = none) :
+    GInv (h.create L) (absSet abs L []) := by
+  refine ⟨?_, ?_, ?_⟩
+  · intro L'
+    by_cases e : L' = L
+    · subst e; simp [create, absSet]
+    · simp only [create, setList_lists, absSet, e, ↓reduceIte]; exact g.lists L'
+  · intro L' l hl
+    by_cases e : L' = L
+    · subst e
+      simp only [absSet, ↓reduceIte, Option.some.injEq] at hl
+      subst hl
+      exact ⟨by simp [create], List.nodup_nil, fun i x hx => by simp at hx⟩
+    · simp only [absSet, e, ↓reduceIte] at hl
+      have r := g.repr L' l hl
+      exact ⟨by simp only [create, setList_lists, e, ↓reduceIte]; exact r.hdr, r.nodup, r.link⟩
+  · intro x nd L' hx hp
+    obtain ⟨l, hl, hm⟩ := g.owner x nd L' hx hp
+    have e : L' ≠ L := fun e => by subst e; rw [hL] at hl; cases hl
+    exact ⟨l, by simp [absSet, e, hl], hm⟩
+
+/-- **insert_first**: the new node becomes the first element, everything else keeps its order -/
+theorem ll_insert_first (h : LHeap) (abs : Nat → Option (List Nat)) (L : Nat) (l : List Nat) (n : Nat)
+    (g : GInv h abs) (hl : abs L = some l) (hn : h.nodes n = none) :
+    GInv (insertFirst h L n) (absSet abs L (n :: l)) :=
+  ginv_attach_head false _ abs L l none n { prev := none, next := none, parent := none }
+    (ginv_alloc h abs n g hn) hl (by simp) rfl
+
+/-- **insert_last** -/
+theorem ll_insert_last (h : LHeap) (abs : Nat → Option (List Nat)) (L : Nat) (l : List Nat) (n : Nat)
+    (g : GInv h abs) (hl : abs L = some l) (hn : h.nodes n = none) :
+    GInv (insertLast h L n) (absSet abs L (l ++ [n])) :=
+  ginv_attach_tail false _ abs L l none n { prev := none, next := none, parent := none }
+    (ginv_alloc h abs n g hn) hl (by simp) rfl
+
+/-- **claim / destroy-node** removes exactly that node (and releases it) -/
+theorem ll_claim (h : LHeap) (abs : Nat → Option (List Nat)) (L : Nat) (l : List Nat) (j : Nat)
+    (g : GInv h abs) (hl : abs L = some l) (hj : j < l.length) :
+    GInv (claim h l[j]) (absSet abs L (l.eraseIdx j)) := by
+  obtain ⟨g1, hp⟩ := ginv_detach h abs L l j g hl hj
+  exact ginv_free _ _ l[j] g1 hp
+
+/-- **move_parent_first**: the node leaves its list (order of the rest kept) and becomes the first element of
+    the target list (order of the rest kept); source and target may be the same list -/
+theorem ll_mvparent_first (h : LHeap) (abs : Nat → Option (List Nat)) (L1 L2 : Nat) (l1 l2 : List Nat) (j : Nat)
+    (g : GInv h abs) (h1 : abs L1 = some l1) (hj : j < l1.length)
+    (h2 : absSet abs L1 (l1.eraseIdx j) L2 = some l2) :
+    GInv (mvParentFirst h l1[j] L2) (absSet (absSet abs L1 (l1.eraseIdx j)) L2 (l1[j] :: l2)) := by
+  obtain ⟨g1, hp⟩ := ginv_detach h abs L1 l1 j g h1 hj
+  cases hnd : (detach h l1[j]).nodes l1[j] with
+  | none =>
+    have := (detach_spec h L1 l1 j (g.repr L1 l1 h1) hj).2.2.2
+    rw [hnd] at this; cases this
+  | some nd => exact ginv_attach_head false _ _ L2 l2 none l1[j] nd g1 h2 hnd (hp nd hnd)
+
+/-- **move_parent_last** -/
+theorem ll_mvparent_last (h : LHeap) (abs : Nat → Option (List Nat)) (L1 L2 : Nat) (l1 l2 : List Nat) (j : Nat)
+    (g : GInv h abs) (h1 : abs L1 = some l1) (hj : j < l1.length)
+    (h2 : absSet abs L1 (l1.eraseIdx j) L2 = some l2) :
+    GInv (mvParentLast h l1[j] L2) (absSet (absSet abs L1 (l1.eraseIdx j)) L2 (l2 ++ [l1[j]])) := by
+  obtain ⟨g1, hp⟩ := ginv_detach h abs L1 l1 j g h1 hj
+  cases hnd : (detach h l1[j]).nodes l1[j] with
+  | none =>
+    have := (detach_spec h L1 l1 j (g.repr L1 l1 h1) hj).2.2.2
+    rw [hnd] at this; cases this
+  | some nd => exact ginv_attach_tail false _ _ L2 l2 none l1[j] nd g1 h2 hnd (hp nd hnd)
+
+/-
+Full statement (false on the pinned tree, see `ll_insert_before_pinned_breaks`; finding F32-C19):
+
+  theorem ll_insert_before (lp : Bool) … : GInv (insertBefore lp h l[j] n) (absSet abs L (l.insertIdx j n))
+
+With the pinned `ARES__LLIST_INSERT_BEFORE` (`lp = false`) the predecessor's `next` is not redirected, so the
+statement holds only where the code falls back to head insertion (`j = 0`).  Proved for the repaired pointer
+update (`lp = true`) at every position and for the pinned one at the head.
+-/
+/-- **insert_before** (partial on the pinned tree): the new node goes directly in front of the given node -/
+theorem ll_insert_before_partial (lp : Bool) (h : LHeap) (abs : Nat → Option (List Nat)) (L : Nat) (l : List Nat)
+    (j n : Nat) (g : GInv h abs) (hl : abs L = some l) (hj : j < l.length) (hn : h.nodes n = none)
+    (hlp : lp = true ∨ j = 0) :
+    GInv (insertBefore lp h l[j] n) (absSet abs L (l.insertIdx j n)) := by
+  have r := g.repr L l hl
+  have hnj : h.nodes l[j] = some (lnk l L j) := r.link' j hj
+  have hnm := g.not_member n (fun nd e => by rw [hn] at e; cases e)
+  have hne : l[j] ≠ n := fun e => hnm L l hl (e ▸ List.getElem_mem hj)
+  have g0 := ginv_alloc h abs n g hn
+  unfold insertBefore
+  rw [hnj]
+  simp only [lnk]
+  unfold LHeap.insertAt
+  by_cases h0 : j = 0
+  · -- "if (type == BEFORE && (at == list->head || at == NULL)) type = HEAD"
+    subst h0
+    have hhead : (attachAt lp (h.setNode n (some { prev := none, next := none, parent := none })) L .before (some l[0]) n) =
+        (attachAt lp (h.setNode n (some { prev := none, next := none, parent := none })) L .head (some l[0]) n) := by
+      unfold attachAt
+      rw [(g0.repr L l hl).hdr]
+      have : l.head? = some l[0] := by rw [List.head?_eq_getElem?, List.getElem?_eq_getElem hj]
+      simp [this]
+    rw [hhead, List.insertIdx_zero]
+    exact ginv_attach_head lp _ abs L l (some l[0]) n { prev := none, next := none, parent := none } g0 hl (by simp) rfl
+  · rcases hlp with hlp | hlp
+    · subst hlp
+      exact ginv_attach_before _ abs L l j n { prev := none, next := none, parent := none } g0 hl hj (by omega) (by simp) rfl
+    · exact absurd hlp h0
+
+/-- **insert_after** (partial on the pinned tree): the new node goes directly behind the given node -/
+theorem ll_insert_after_partial (lp : Bool) (h : LHeap) (abs : Nat → Option (List Nat)) (L : Nat) (l : List Nat)
+    (j n : Nat) (g : GInv h abs) (hl : abs L = some l) (hj : j < l.length) (hn : h.nodes n = none)
+    (hlp : lp = true ∨ j + 1 = l.length) :
+    GInv (insertAfter lp h l[j] n) (absSet abs L (l.insertIdx (j + 1) n)) := by
+  have r := g.repr L l hl
+  have hnj : h.nodes l[j] = some (lnk l L j) := r.link' j hj
+  have g0 := ginv_alloc h abs n g hn
+  unfold insertAfter
+  rw [hnj]
+  simp only [lnk]
+  by_cases hlast : j + 1 = l.length
+  · -- "if (node->next == NULL) return ares_llist_insert_last(node->parent, val)"
+    rw [List.getElem?_eq_none (by omega)]
+    simp only
+    have : l.insertIdx (j + 1) n = l ++ [n] := by rw [hlast]; exact List.insertIdx_length_self
+    rw [this]
+    exact ll_insert_last h abs L l n g hl hn
+  · have hj1 : j + 1 < l.length := by omega
+    rw [List.getElem?_eq_getElem hj1]
+    simp only
+    rcases hlp with hlp | hlp
+    · subst hlp
+      unfold LHeap.insertAt
+      exact ginv_attach_before _ abs L l (j + 1) n { prev := none, next := none, parent := none } g0 hl hj1 (by omega) (by simp) rfl
+    · exact absurd hlp hlast
+
+/-- kernel-checked counterexample to the full statement on the pinned tree (F32-C19): after
+    `insert_last 1, 2, 3; insert_before(node 3, 9)` the counter says 4, backward iteration sees `3 9 2 1`,
+    forward iteration sees only `1 2 3` -/
+theorem ll_insert_before_pinned_breaks :
+    let h := insertBefore false (insertLast (insertLast (insertLast (LHeap.empty.create 1) 1 1) 1 2) 1 3) 3 9
+    len h 1 = 4 ∧ backward h 1 10 = [3, 9, 2, 1] ∧ forward h 1 10 = [1, 2, 3] := by decide
+
+/-- what the API shows of a well-formed list: forward iteration, backward iteration, indexing and the counter all
+    describe the same sequence (`cnt = length`) -/
+theorem ll_observations (h : LHeap) (abs : Nat → Option (List Nat)) (L : Nat) (l : List Nat) (fuel : Nat)
+    (g : GInv h abs) (hl : abs L = some l) (hf : l.length ≤ fuel) :
+    forward h L fuel = l ∧ backward h L fuel = l.reverse ∧ len h L = l.length ∧ ∀ i, nodeIdx h L i = l[i]? := by
+  have r := g.repr L l hl
+  refine ⟨forward_repr h L l r fuel hf, backward_repr h L l r fuel hf, by simp [len, r.hdr], ?_⟩
+  intro i
+  unfold nodeIdx
+  rw [r.hdr]
+  simp only
+  by_cases hi : i ≥ l.length
+  · rw [if_pos hi, List.getElem?_eq_none hi]
+  · rw [if_neg hi]
+    have := walkNext_repr h L l r (i + 1) 0
+    rw [List.head?_eq_getElem?, this, List.drop_zero, List.getElem?_take, if_pos (by omega)]
+
+/-- the heaps the API can produce (with the repaired `insert_before`, or with the pinned one used only at the
+    head / `insert_after` only at the tail), together with the sequences they stand for -/
+inductive LlReach (lp : Bool) : LHeap → (Nat → Option (List Nat)) → Prop where
+  | empty : LlReach lp LHeap.empty (fun _ => none)
+  | create (h abs L) : LlReach lp h abs → abs L = none → LlReach lp (h.create L) (absSet abs L [])
+  | insFirst (h abs L l n) : LlReach lp h abs → abs L = some l → h.nodes n = none →
+      LlReach lp (insertFirst h L n) (absSet abs L (n :: l))
+  | insLast (h abs L l n) : LlReach lp h abs → abs L = some l → h.nodes n = none →
+      LlReach lp (insertLast h L n) (absSet abs L (l ++ [n]))
+  | insBefore (h abs L l j n) (hj : j < l.length) : LlReach lp h abs → abs L = some l → h.nodes n = none →
+      (lp = true ∨ j = 0) → LlReach lp (insertBefore lp h l[j] n) (absSet abs L (l.insertIdx j n))
+  | insAfter (h abs L l j n) (hj : j < l.length) : LlReach lp h abs → abs L = some l → h.nodes n = none →
+      (lp = true ∨ j + 1 = l.length) → LlReach lp (insertAfter lp h l[j] n) (absSet abs L (l.insertIdx (j + 1) n))
+  | claim (h abs L l j) (hj : j < l.length) : LlReach lp h abs → abs L = some l →
+      LlReach lp (claim h l[j]) (absSet abs L (l.eraseIdx j))
+  | mvFirst (h abs L1 L2 l1 l2 j) (hj : j < l1.length) : LlReach lp h abs → abs L1 = some l1 →
+      absSet abs L1 (l1.eraseIdx j) L2 = some l2 →
+      LlReach lp (mvParentFirst h l1[j] L2) (absSet (absSet abs L1 (l1.eraseIdx j)) L2 (l1[j] :: l2))
+  | mvLast (h abs L1 L2 l1 l2 j) (hj : j < l1.length) : LlReach lp h abs → abs L1 = some l1 →
+      absSet abs L1 (l1.eraseIdx j) L2 = some l2 →
+      LlReach lp (mvParentLast h l1[j] L2) (absSet (absSet abs L1 (l1.eraseIdx j)) L2 (l2 ++ [l1[j]]))
+
+/-- **C19 (linked list)**: under any sequence of these operations the pointer structure stands for exactly the
+    sequences the list-level reference computes — order is preserved across inserts, removals and moves between
+    lists, and `cnt` = length (via `ll_observations`). -/
+theorem ll_run_refines (lp : Bool) (h : LHeap) (abs : Nat → Option (List Nat)) (hr : LlReach lp h abs) : GInv h abs := by
+  induction hr with
+  | empty => exact ll_empty
+  | create h abs L _ hL ih => exact ll_create h abs L ih hL
+  | insFirst h abs L l n _ hl hn ih => exact ll_insert_first h abs L l n ih hl hn
+  | insLast h abs L l n _ hl hn ih => exact ll_insert_last h abs L l n ih hl hn
+  | insBefore h abs L l j n hj _ hl hn hlp ih => exact ll_insert_before_partial lp h abs L l j n ih hl hj hn hlp
+  | insAfter h abs L l j n hj _ hl hn hlp ih => exact ll_insert_after_partial lp h abs L l j n ih hl hj hn hlp
+  | claim h abs L l j hj _ hl ih => exact ll_claim h abs L l j ih hl hj
+  | mvFirst h abs L1 L2 l1 l2 j hj _ h1 h2 ih => exact ll_mvparent_first h abs L1 L2 l1 l2 j ih h1 hj h2
+  | mvLast h abs L1 L2 l1 l2 j hj _ h1 h2 ih => exact ll_mvparent_last h abs L1 L2 l1 l2 j ih h1 hj h2
+
+-- non-vacuity: a concrete run with the repaired insert_before and a move between two lists
+example :
+    let h0 := ((LHeap.empty.create 1).create 2)
+    let h1 := insertLast (insertLast (insertLast h0 1 1) 1 2) 1 3
+    let h2 := insertBefore true h1 3 9
+    let h3 := mvParentFirst h2 2 2
+    forward h3 1 10 = [1, 9, 3] ∧ backward h3 1 10 = [3, 9, 1] ∧ forward h3 2 10 = [2] ∧ len h3 1 = 3 := by decide
+
+end LList
 
 end Cares.C19
